@@ -779,6 +779,40 @@ def arg_flow(repo):
     return flows
 
 
+def extra_order(repo):
+    """'InOrder' if `util::hash_all` (and its use in generate_hash_key) returns the digest of the i-th file at position
+    i: one future per file, in file order, collected by an order-preserving combinator; otherwise 'OtherOrder'."""
+    txt = norm(item_at(read(repo, 'src/util.rs'), r'^pub\s+async\s+fn\s+hash_all\s*\(', 'fn util::hash_all'))
+    bo = txt.index('{')
+    stmts = [x for x in (norm(t) for t in split_statements(txt[bo + 1:match_close(txt, bo, '{', '}')]))
+             if not x.startswith(('trace!(', 'debug!(', 'let start=', 'let count='))]
+    want = ['let iter=files.iter().map(move|f|Digest::file(f,pool))',
+            'let hashes=futures::future::try_join_all(iter).await?',
+            'Ok(hashes)']
+    mode = 'InOrder' if stmts == want else 'OtherOrder'
+    g = norm(item_at(read(repo, 'src/compiler/c.rs'), r'^    async\s+fn\s+generate_hash_key\s*\(', 'fn generate_hash_key'))
+    if len(re.findall(r'let extra_hashes=hash_all\(&parsed_args\.extra_hash_files,&pool\.clone\(\)\)\.await\?;', g)) != 1 \
+            or len(re.findall(r'let (?:mut )?extra_hashes\b', g)) != 1:
+        mode = 'OtherOrder'
+    for fn in ('hash_key', 'preprocessor_cache_entry_hash_key'):
+        calls = re.findall(r'(?<![A-Za-z0-9_])%s\(((?:[^()]|\((?:[^()]|\([^()]*\))*\))*)\)' % fn, g)
+        if len(calls) != 1 or split_top(calls[0], ',')[3:4] != ['&extra_hashes']:
+            mode = 'OtherOrder'
+    return mode
+
+
+def input_path_mode(repo):
+    """'AsGiven' if the path handed to preprocessor_cache_entry_hash_key is `cwd.join(input)` (or the input itself when
+    absolute) and nothing else (no canonicalisation, no normalisation); otherwise 'OtherPath'."""
+    g = norm(item_at(read(repo, 'src/compiler/c.rs'), r'^    async\s+fn\s+generate_hash_key\s*\(', 'fn generate_hash_key'))
+    binds = re.findall(r'let (?:mut )?absolute_input_path\b[^=]*=', g)
+    want = ("let absolute_input_path:Cow<'_,_>=if parsed_args.input.is_absolute(){Cow::Borrowed(&parsed_args.input)}"
+            'else{Cow::Owned(cwd.join(&parsed_args.input))};')
+    calls = re.findall(r'(?<![A-Za-z0-9_])preprocessor_cache_entry_hash_key\(((?:[^()]|\((?:[^()]|\([^()]*\))*\))*)\)', g)
+    ok = (len(binds) == 1 and want in g and len(calls) == 1 and split_top(calls[0], ',')[5:6] == ['&absolute_input_path'])
+    return 'AsGiven' if ok else 'OtherPath'
+
+
 EXPECTED_ENV = [('EName', 'LP'), ('ELit', b'='), ('EVal', 'LP')]
 EXPECTED_SHAPE_C = [('CDigest',), ('CPlusplus',), ('CVersion',), ('CLang',), ('CArgs', 'LP'), ('CExtra',),
                     ('CEnv', EXPECTED_ENV), ('CPP',)]
@@ -834,6 +868,12 @@ def read_spec(repo, fallback=None):
     if fallback.get('drivers') is not None and fallback.get('script_ids') is not None:
         spec['script_ids'] = fallback['script_ids']
     item('drivers', drivers, fallback.get('drivers'))
+    for name, f, bad in (('extra_order', extra_order, 'OtherOrder'), ('input_path_mode', input_path_mode, 'OtherPath')):
+        try:
+            spec[name] = f(repo)
+        except Unrecognised as e:
+            errors.append('%s: %s' % (name, e))
+            spec[name] = bad
     try:
         spec.update(arg_flow(repo))
     except Unrecognised as e:
@@ -913,6 +953,10 @@ def emit(spec, gen_dir):
     txt += '\n(* c.rs generate_hash_key: the argument lists of the parsed request that make up the hashed `arguments` *)\n'
     txt += 'Definition the_flow_c : list seg := [%s].\n' % '; '.join(spec['flow_c'])
     txt += 'Definition the_flow_p : list seg := [%s].\n' % '; '.join(spec['flow_p'])
+    txt += '\n(* util::hash_all as used by generate_hash_key: is the i-th digest the digest of the i-th extra file? *)\n'
+    txt += 'Definition the_extra_order : order_mode := %s.\n' % spec['extra_order']
+    txt += '\n(* generate_hash_key: the input path handed to the preprocessor-level key *)\n'
+    txt += 'Definition the_input_path_mode : path_mode := %s.\n' % spec['input_path_mode']
     txt += '\n(* c.rs generate_hash_key: the list the client environment is filtered by BEFORE it reaches the key functions *)\n'
     pf = spec.get('env_prefilter')
     txt += 'Definition the_env_prefilter : option (list bytes) := %s.\n' % (
@@ -959,6 +1003,12 @@ Proof. vm_compute; reflexivity. Qed.
 Lemma the_flow_c_ok : the_flow_c = expected_flow_c.
 Proof. vm_compute; reflexivity. Qed.
 Lemma the_flow_p_ok : the_flow_p = expected_flow_p.
+Proof. vm_compute; reflexivity. Qed.
+
+(* the extra-file digests come in file order; the input path is hashed as it was given *)
+Lemma the_extra_order_ok : the_extra_order = InOrder.
+Proof. vm_compute; reflexivity. Qed.
+Lemma the_input_path_mode_ok : the_input_path_mode = AsGiven.
 Proof. vm_compute; reflexivity. Qed.
 
 Lemma the_spec_good : spec_good the_spec.
